@@ -69,6 +69,47 @@ func TestC13(t *testing.T) {
 				}
 			}
 		}
+		// 1b. long whitespace runs (word-at-a-time scanners): pure runs of length 0..40 x every
+		// byte, and runs of length 1..32 with one near-whitespace byte at every position,
+		// followed by nothing / more whitespace and a token
+		if e.enumStage("long-prefixes", "whitespace runs of length 0..40 (4 mixtures) x 256 bytes; runs of length 1..32 with one of 10 non-whitespace bytes <= 0x20 (or 0x85, 0xa0) at every position x 5 tails", true) {
+			buf := make([]byte, 0, 96)
+			mixes := []string{" ", "\n", " \t\r\n", "\t\t \n \r"}
+			idx := 0
+		lp:
+			for L := 0; L <= 40; L++ {
+				for _, mix := range mixes {
+					idx++
+					if !e.cfg.Mine(idx) {
+						continue
+					}
+					pre := make([]byte, L)
+					for i := range pre {
+						pre[i] = mix[i%len(mix)]
+					}
+					for b := 0; b < 256; b++ {
+						buf = append(append(buf[:0], pre...), byte(b))
+						if !run("long-prefix", buf) {
+							break lp
+						}
+					}
+					if L == 0 || L > 32 {
+						continue
+					}
+					for pos := 0; pos < L; pos++ {
+						for _, bad := range []byte{0x00, 0x01, 0x08, 0x0b, 0x0c, 0x0e, 0x1f, 0x7f, 0x85, 0xa0} {
+							for _, tail := range []string{"", "        ", "true", "        true", " \n\t\r    [1]"} {
+								buf = append(append(buf[:0], pre...), tail...)
+								buf[pos] = bad
+								if !run("long-prefix.bad", buf) {
+									break lp
+								}
+							}
+						}
+					}
+				}
+			}
+		}
 		// 2. every one-byte corruption, truncation and next byte of each literal (complete)
 		if e.enumStage("literals", "{null,true,false} x 6 whitespace prefixes x (every position x 256 substitutions, every truncation, 256 next bytes, 256 insertions)", true) {
 			buf := make([]byte, 0, 16)
